@@ -50,6 +50,17 @@ class C09(Prop):
                             top = ch * a + ' ' + ch * b
                             other = ' ' * a + conn
                             out.append(self.make('gap', (other + '\n' + top) if where else (top + '\n' + other)))
+        # small free-standing pieces between two long parallel strokes (their bounds overlap; the piece must be drawn once)
+        for ch in '/\\':
+            for L in (5, 7, 9):
+                for gap in (3, 4, 6):
+                    for piece in ('-', '|', '--', '_', 'x'):
+                        a = gens.run_rows(ch, L, 'd2' if ch == '/' else 'd1')
+                        rows = gens.overlay(a, a, gap + len(piece) + 1, 0)
+                        mid = L // 2
+                        col = (L - 1 - mid if ch == '/' else mid) + 2 + (gap - 2) // 2
+                        rows = gens.overlay(rows, [piece], col, mid)
+                        out.append(self.make('between', gens.place(rows, rng.choice([0, 1]), rng.choice([0, 1]))))
         for g, t in texts(rng, tier, 600, 10000): out.append(self.make(g, t))
         return out
     def item_from_json(self, j): return item_from_json(None, j)
